@@ -244,6 +244,26 @@ CLAIMED = {
             'solver-enumerated (z3 all-SAT) representation/data-condition '
             'vectors executed on the real entry points with bit-for-bit '
             'snapshot comparison'),
+    'C15': ('3/C15',
+            'process_quantities over every presence/unit vector of three '
+            'inputs (raises iff units are mixed, else strips and returns the '
+            'unit); symbolic arrays in Fortran-ordered / strided containers '
+            'give solver-equal do_photometry, centroid_com and '
+            'detect_sources results; and for 13 entry points every '
+            'representation of the same integer-valued scene (float32, '
+            'int16/32/64, uint16, big-endian float64/float32, Fortran order, '
+            'strided view, MaskedArray with empty mask, Quantity, NDData, '
+            'mixed units) is compared with the float64 baseline: same '
+            'numbers (float32 precision for float32 input), units carried, '
+            'mixed units rejected, no representation fails where float64 '
+            'succeeds.',
+            'differential part: one scene, solver-enumerated finite product '
+            'of entry points and representations; tolerances stated in the '
+            'evidence; Background2D integer output rounding excepted as '
+            'documented',
+            'solver-enumerated representation vectors (z3 all-SAT) with '
+            'differential execution against the float64 baseline; symbolic '
+            'execution (SYM) for process_quantities-free layout independence'),
 }
 
 NOT_YET = {}
